@@ -692,10 +692,24 @@ def check_adaptive(case):
     return {"nt": steps >= 2, "labels": labels, "ratio": (err / (steps * tol_s)) if judged else 0.0}
 
 
-def check_rkf_single(case):
-    """adaptive Runge-Kutta, range covered by one accepted step = Fehlberg's 4th-order formula"""
+def euler_doubling_step(prob, u, t, dt):
+    """documented adaptive Euler trial: two half steps, estimate = difference to one full step"""
+    full = u + dt * prob.f(u, t)
+    half = u + dt / 2 * prob.f(u, t)
+    new = half + dt / 2 * prob.f(half, t + dt / 2)
+    return new, float(np.abs(full - new).max())
+
+
+def check_single_step(case):
+    """adaptive run whose range is covered by one accepted trial step
+
+    runge-kutta: the result is Fehlberg's fourth-order formula (multiplier
+    1+z+z^2/2+z^3/6+z^4/24+z^5/104), the step is accepted iff Fehlberg's error estimate is
+    below the tolerance; euler: the documented step-doubling trial (two half steps).
+    """
     prob = Problem(case)
     backend = case["backend"]
+    solver = case.get("solver", "runge-kutta")
     t0 = prob.t_start
     t_end = t0 + float(case["T"])
     T = t_end - t0  # the requested range (exact difference of the two end points)
@@ -703,22 +717,26 @@ def check_rkf_single(case):
     if not dt0 > T * (1 + 1e-9):
         raise Rejected("initial step does not exceed the range")
     u0 = prob.u0_array()
-    u4, est = rkf45_step(prob, u0, t0, T)
+    if solver == "runge-kutta":
+        want, est = rkf45_step(prob, u0, t0, T)
+        name, tag = "Fehlberg's fourth-order formula", f"rkf45:{backend}"
+    else:
+        want, est = euler_doubling_step(prob, u0, t0, T)
+        name, tag = "two Euler half steps", f"euler-doubling:{backend}"
     z = prob.a * T
     pmax, dmax = prob.p_bounds(t0, t_end)
     scale = float(np.abs(u0).max()) + T * abs(prob.b) * pmax
     round_off = 16 * EPS * 10 * math.exp(abs(z)) * scale + 40 * T * abs(prob.b) * dmax * 16 * ulp(
         max(abs(t0), abs(t_end), abs(t0 - prob.tc)))
     mode = case["mode"]
-    tag = f"rkf45:{backend}"
+    factor = float(case["factor"])
+    if mode == "reject" and not est / factor > 1e3 * round_off:
+        mode = "accept"  # estimate too small to be clearly above any sensible tolerance
     if mode == "accept":
-        tol_s = max(float(case["factor"]) * est, 1e3 * round_off, 1e-300)
-    else:  # the estimate exceeds the tolerance clearly: the full step must be rejected
-        tol_s = est / float(case["factor"])
-        if not tol_s > 1e3 * round_off:
-            mode = "accept"
-            tol_s = max(float(case["factor"]) * est, 1e3 * round_off, 1e-300)
-    data, info, _ = run_solve(prob, case, solver="runge-kutta", backend=backend, t_end=t_end, dt=dt0,
+        tol_s = max(factor * est, 1e3 * round_off, 1e-300)
+    else:  # the estimate exceeds the tolerance clearly: the whole-range step must be rejected
+        tol_s = est / factor
+    data, info, _ = run_solve(prob, case, solver=solver, backend=backend, t_end=t_end, dt=dt0,
                               adaptive=True, tolerance=tol_s)
     _check_end_time(tag, info, t0, t_end)
     steps = int(info["solver"]["steps"])
@@ -726,34 +744,35 @@ def check_rkf_single(case):
     if mode == "reject":
         if steps < 2:
             raise Violation(
-                f"{tag}: a single step of size {T!r} was accepted although Fehlberg's error estimate "
-                f"{est:.3e} is {case['factor']}x the tolerance {tol_s:.3e}; a={prob.a!r} b={prob.b!r}",
+                f"{tag}: a single step of size {T!r} was accepted although the scheme's error estimate "
+                f"{est:.3e} is {factor}x the tolerance {tol_s:.3e}; a={prob.a!r} b={prob.b!r}",
                 key=f"{tag}:estimate")
         return {"nt": True, "labels": labels}
     if steps != 1:
         raise Violation(
-            f"{tag}: {steps} steps taken although the whole range {T!r} is one trial step whose Fehlberg "
-            f"error estimate {est:.3e} is below the tolerance {tol_s:.3e}; a={prob.a!r} b={prob.b!r} "
+            f"{tag}: {steps} steps taken although the whole range {T!r} is one trial step whose error "
+            f"estimate {est:.3e} is below the tolerance {tol_s:.3e}; a={prob.a!r} b={prob.b!r} "
             f"dt0={dt0!r}", key=f"{tag}:estimate")
-    err = float(np.abs(data - u4).max())
+    err = float(np.abs(data - want).max())
     if not err <= round_off:
         raise Violation(
-            f"{tag}: single accepted step differs from Fehlberg's fourth-order formula: got {data!r}, "
-            f"expected {u4!r}, |diff|={err:.3e} > {round_off:.3e}; a={prob.a!r} b={prob.b!r} T={T!r} "
+            f"{tag}: single accepted step differs from {name}: got {data!r}, "
+            f"expected {want!r}, |diff|={err:.3e} > {round_off:.3e}; a={prob.a!r} b={prob.b!r} T={T!r} "
             f"t_start={t0!r}", key=f"{tag}:tableau")
     if prob.b == 0:
-        want = rkf4_poly(z) * u0
-        if not float(np.abs(data - want).max()) <= round_off:
-            raise Violation(f"{tag}: single-step multiplier is not 1+z+z^2/2+z^3/6+z^4/24+z^5/104: got "
-                            f"{data!r}, expected {want!r}, z={z!r}", key=f"{tag}:polynomial")
+        poly = rkf4_poly(z) if solver == "runge-kutta" else (1 + z / 2) ** 2
+        if not float(np.abs(data - poly * u0).max()) <= round_off:
+            raise Violation(f"{tag}: single-step multiplier is not "
+                            + ("1+z+z^2/2+z^3/6+z^4/24+z^5/104" if solver == "runge-kutta" else "(1+z/2)^2")
+                            + f": got {data!r}, expected {poly * u0!r}, z={z!r}", key=f"{tag}:polynomial")
         labels.append("polynomial")
-    if prob.a == 0:
+    if prob.a == 0 and solver == "runge-kutta":
         ex = prob.exact(t_end)
         if not float(np.abs(data - ex).max()) <= round_off + 8 * EPS * float(np.abs(ex).max()):
             raise Violation(f"{tag}: fourth-order step does not integrate cubic forcing exactly: got "
                             f"{data!r}, exact {ex!r}", key=f"{tag}:quadrature")
         labels.append("exact-quadrature")
-    sharp = round_off <= 1e-8 * max(float(np.abs(u4).max()), 1e-300)
+    sharp = round_off <= 1e-8 * max(float(np.abs(want).max()), 1e-300)
     labels.append("sharp-tol" if sharp else "weak-tol")
     nt = sharp and (prob.b != 0 or isinstance(prob.a, complex) or t0 != 0)
     return {"nt": nt, "labels": labels, "ratio": err / round_off}
@@ -971,7 +990,8 @@ def rkf_cases(draw, backends=("numpy", "numba")):
         a = draw(z_values(1.5)) / T
         b, c, tc, ts = draw(forcings(T, t_start, mode="any"))
         mode = draw(st.sampled_from(["accept", "accept", "accept", "reject"]))
-    return {"backend": backend, "T": T, "t_start": t_start, "a": enc(a), "b": enc(b), "c": c, "tc": tc,
+    return {"solver": draw(st.sampled_from(["runge-kutta", "runge-kutta", "euler"])),
+            "backend": backend, "T": T, "t_start": t_start, "a": enc(a), "b": enc(b), "c": c, "tc": tc,
             "ts": ts, "u0": draw(states()), "mode": mode, "factor": draw(st.sampled_from([4.0, 10.0, 100.0])),
             "dt0": T * draw(st.sampled_from([1.25, 1.5, 10.0]))}
 
@@ -1029,7 +1049,7 @@ SUBCHECKS = [
     SubCheck("adaptive_end_time_and_error", strategy=adaptive_cases, check=check_adaptive, mode="nojit",
              budget={"quick": 400, "thorough": 6000}, shards={"quick": 2, "thorough": 4},
              rule="non-trivial = >= 2 accepted steps"),
-    SubCheck("rkf45_single_step_polynomial", strategy=rkf_cases, check=check_rkf_single, mode="nojit",
+    SubCheck("rkf45_single_step_polynomial", strategy=rkf_cases, check=check_single_step, mode="nojit",
              budget={"quick": 300, "thorough": 4000}, shards={"quick": 1, "thorough": 2},
              rule="non-trivial = sharp tolerance and (b != 0 or complex a or t_start != 0); reject mode: "
                   "the whole-range trial step must be rejected"),
@@ -1047,7 +1067,7 @@ SUBCHECKS = [
     SubCheck("adaptive_jit",
              strategy=lambda: st.one_of(adaptive_cases(backends=("numba",), tol_lo=1e-5),
                                         rkf_cases(backends=("numba",))),
-             check=lambda case: check_rkf_single(case) if "mode" in case else check_adaptive(case),
+             check=lambda case: check_single_step(case) if "mode" in case else check_adaptive(case),
              mode="jit", budget={"quick": 10, "thorough": 160}, shards={"quick": 1, "thorough": 4},
              rule="non-trivial = >= 2 accepted steps / single-step rule"),
     SubCheck("backend_agreement_jit", strategy=lambda: agreement_cases(jit=True), check=check_agreement,
